@@ -1550,6 +1550,38 @@ pub fn plan(property: &str, tier: Tier) -> Option<Plan>
                 c.final_gc = true;
                 items.push(item(c, "stale", &format!("N={n}")));
             }
+            // systems whose entity survives without its system (`clear()` on a system command entity)
+            let ns: &[u32] = if q { &[3] } else { &[3, 4] };
+            for &n in ns
+            {
+                let mut c = Config::base(&format!("C18/strip/N{n}"));
+                c.actors = vec![Variant::Plain, Variant::Plain, Variant::Plain];
+                c.n_ents = 1;
+                c.setup = vec![
+                    Op::Register(1, Bundle::two(Trig::Broadcast(Ev::A), Trig::EntityEvent(Ev::A, 0)), Mode::Persistent),
+                    Op::Register(2, Bundle::two(Trig::Broadcast(Ev::A), Trig::Despawn(0)), Mode::Persistent),
+                    Op::RegisterNew(Variant::Plain, Bundle::one(Trig::Broadcast(Ev::A)), Mode::Revokable),
+                ];
+                c.fixed_top = vec![Op::Run(0)];
+                let alpha: AlphabetFn = Arc::new(|i: &DynInfo| {
+                    let mut v = Vec::new();
+                    for a in i.ready_actors() { v.push(Op::StripSys(a)); v.push(Op::Run(a)); v.push(Op::SysEvent(a)); }
+                    v.push(Op::Broadcast(Ev::A));
+                    v.push(Op::EntityEvent(Ev::A, 0));
+                    v.push(Op::Despawn(0));
+                    for k in i.ready_tokens() { v.push(Op::Revoke(k)); }
+                    v
+                });
+                c.script = alpha.clone();
+                c.top = alpha;
+                c.max_top = 2;
+                c.budget = n;
+                c.max_per_run = 3;
+                c.max_runs = 300;
+                c.sym_actors = vec![];
+                c.final_gc = true;
+                items.push(item(c, "strip", &format!("N={n}")));
+            }
             // in this universe every operation names a target that may be stale: an unreleased payload, leftover
             // bookkeeping or an undischarged command for a dead target is a stale reference that was not harmless
             reports = vec!["C18", "C05", "C11", "C02"];
